@@ -169,17 +169,23 @@ def main(tier, replay=None, selftest=False):
         sel = [json.load(open(replay))["case"]]
         left = 0
     else:
-        sel, left = pick(cases, rng, 70 if tier == "quick" else 1500)
-        # make sure failures and successes of every program kind are in
-        for prog in ("valid", "validWide", "invalidQuery", "missingQuery", "badSchema"):
-            if not any(c["program"] == prog for c in sel):
-                sel.append(next(c for c in cases if c["program"] == prog))
+        # the pairwise cover is taken over the requests that SUCCEED (a pair "covered" only by a run that fails
+        # early for another reason shows nothing about that pair); failing programs are added on top
+        good = [c for c in cases if c["program"] in ("valid", "validWide")]
+        sel, left = pick(good, rng, 62 if tier == "quick" else 1400)
+        for prog in ("invalidQuery", "missingQuery", "badSchema"):
+            for placement in ("beside", "outdir"):
+                cand = [c for c in cases if c["program"] == prog and c["placement"] == placement]
+                sel += rng.sample(cand, min(len(cand), 1 if tier == "quick" else 15))
     ck.notes["pairs_left_uncovered"] = left
     base = os.path.join(vlib.WORK, "c19")
     trace = []
     genjobs = []
     runs = []
+    hangs = 0
     for n, case in enumerate(sel):
+        if hangs >= 3:
+            break           # three runs already hung: the verdict is in
         root = os.path.join(base, "run%d" % n)
         setup(root, case)
         # a previous, longer output at the same destination must be replaced entirely
@@ -197,6 +203,7 @@ def main(tier, replay=None, selftest=False):
         except subprocess.TimeoutExpired:
             # (a process that hangs is data, not a tool error)
             p = subprocess.CompletedProcess([CLI], returncode=-999, stdout="", stderr="the command did not terminate within 40 s")
+            hangs += 1
         after = snapshot(root)
         created = sorted(k for k in after if k not in before)
         modified = sorted(k for k in after if k in before and after[k] != before[k])
